@@ -100,15 +100,19 @@ def run(ctx):
         raise harness.MachineryError(f"ImplIgnoresOldestRoot expected to be violated, TLC reported {r.violated}")
     ctx.count("deviation_impl_selection_refuted_by_TLC")
 
+    bp.tick(ctx, "tlc")
+    bp.tsd()
+    bp.tick(ctx, "import_tsdate")
     proper = [i for i in insts if i["status"] == "done"]
-    cap = 250 if q else 5000
+    cap = 1000 if q else 8000
     if len(proper) > cap:
         proper = ctx.rng.sample(proper, cap)
     for inst in proper:
         bp.mirror_sync_io(ctx, inst)
         replay_double(ctx, inst)
+    bp.tick(ctx, "replay_doubles")
     dags = [d for d in dags if d["unique"]]
-    cap = 250 if q else 5000
+    cap = 1000 if q else 8000
     ctx.exhaustive = False
     if len(dags) > cap:
         dags = ctx.rng.sample(dags, cap)
@@ -117,10 +121,12 @@ def run(ctx):
         ctx.traces += 1
         if d["perm"][d["oldest"]] != d["N"] - 1 and d["skipped"]:
             ctx.nontriv(("dag", str(d["edges"]), str(d["perm"]), str(d["time"])))
+    bp.tick(ctx, "replay_orders")
     inputs = bp.corpus(ctx, 4 if q else 16, 1 if q else 4)
     for k, inp in enumerate(inputs):
         for s in range(1 if q else 3):
             pair(ctx, inp.name, inp.ts, inp.mu, inp.Ne, bp.SPACES[(k + s) % 2], ctx.seed + 101 * s + k)
+    bp.tick(ctx, "pairs")
 
 
 def replay(ctx, body):
